@@ -315,7 +315,9 @@ void eng_gen_table(void)
         w_begin();
         size_t ng = chance(90) ? 1 + rn(3) : 1 + rn(6);
         size_t ncmd = ng + (chance(70) ? rn(8) : rn(EP.max_cmds - (unsigned)ng + 1));
-        if (ncmd > EP.max_cmds) ncmd = EP.max_cmds;
+        bool big = chance(4);
+        if (big) { ncmd = 24 + 4 * rn(5) - (chance(30) ? rn(4) : 0); if (ncmd > MAXCMD - 8) ncmd = MAXCMD - 8; if (ng > ncmd) ng = 1; }      /* 21 .. 40 commands, mostly a multiple of four */
+        if (!big && ncmd > EP.max_cmds) ncmd = EP.max_cmds;
         if (ncmd < ng) ncmd = ng;
         size_t per[MAXGRP] = { 0 };
         for (size_t g = 0; g < ng; g++) per[g] = 1;
@@ -352,6 +354,7 @@ void eng_gen_table(void)
         }
         size_t cap = 6 + rn(chance(50) ? 10 : 120);
         if (cap < w_min_cap()) cap = w_min_cap();
+        if (W.ncmds >= 21 && chance(50)) { cap = w_min_cap(); CNT("tables_using_every_match_state_slot_of_a_minimal_buffer"); }      /* ceil(n/4) bytes of match states: the table fills the command buffer to its last byte (or last but one) */
         bool shared = chance(50);
         if (shared) w_buffers(cap * 2 + rn(2), true, 0);
         else w_buffers(cap, false, rn(chance(30) ? 8 : 100));
